@@ -170,6 +170,10 @@ class Repo:
 
 
 _BUILTIN_EXC_MRO = {
+    "OperationalError": ["DatabaseError"],
+    "DatabaseError": ["Error"],
+    "Error": ["Exception"],
+    "Exception": ["BaseException"],
     "ValueError": ["Exception"],
     "TypeError": ["Exception"],
     "KeyError": ["LookupError"],
